@@ -81,7 +81,12 @@ class QG:
             return {"and": [self.query(depth - 1, scope, facts) for _ in range(rng.randint(0, 3))]}
         if r < 0.85:
             # disjuncts see the same incoming scope; what they bind is only possibly bound afterwards: later conjuncts may still use those names as shared
-            q = {"or": [self.query(depth - 1, set(scope), facts) for _ in range(rng.randint(0, 3))]}
+            scopes = [set(scope) for _ in range(rng.randint(0, 3))]
+            q = {"or": [self.query(depth - 1, sc_, facts) for sc_ in scopes]}
+            if rng.random() < 0.5:
+                # names bound inside one disjunct only: the bindings that reach the following conjuncts then differ in the variables
+                # they bind (a later pattern naming such a variable is substituted for some incoming bindings and binds it for others)
+                for sc_ in scopes: scope.update(sc_)
             sc = rng.random()
             if sc < 0.4: q[rng.choice(["shortCircuit", "ShortCircuit", "short_circuit", "shortcircuit"])] = True
             elif sc < 0.5: q["shortCircuit"] = False
@@ -110,6 +115,12 @@ def gen_case(rng, thorough):
         # ?location / ?ruleId itself, and the condition then runs with THOSE values (they are only added when absent)
         own = rng.choice(["?location", "?ruleId"]) if as_rule and rng.random() < 0.4 else None
         q = g.query(rng.randint(1, 4 if not thorough else 6), {own} if own else set(), facts)
+        if rng.random() < 0.12:
+            # directed: the bindings that reach a pattern differ in the variables they bind (one disjunct binds ?x, the other does not):
+            # the pattern is substituted with each incoming binding on its own
+            k1, k2, k3 = (rng.choice(KEYS) for _ in range(3))
+            d1, d2 = {"pattern": {k1: "?y"}}, {"pattern": {k2: "?x"}}
+            q = {"and": [{"or": [d1, d2] if rng.random() < 0.6 else [d2, d1]}, {"pattern": {k3: "?x"} if rng.random() < 0.7 else {k3: "?x", k1: "?y"}}]}
         if not as_rule:
             ops.append({"op": "query", "loc": "a", "query": q})
         else:
